@@ -172,6 +172,8 @@ def generate(rng, index, cfg):
         "tool_base": "empty.ipynb" if (mode == "mergetool" and rng.random() < 0.35) else "a.ipynb",
         # the server process is started from another directory than the one it serves (-w DIR)
         "cwd_elsewhere": rng.random() < 0.3,
+        # the output file is to be created in a directory that does not exist yet
+        "output_in_missing_dir": rng.random() < 0.2,
     }
     if world["cwd_elsewhere"]:
         world["wd_flag"] = True
@@ -461,6 +463,9 @@ class Runner:
         with open(os.path.join(w.work, "v99.ipynb"), "w") as f:
             f.write('{"nbformat": 99, "nbformat_minor": 0, "metadata": {}, "cells": []}')
         self.output_name = OUTPUT_NAME.get(tw["mode"])
+        if self.output_name and tw.get("output_in_missing_dir"):
+            self.output_name = "resolved/2026/" + self.output_name
+            tw = dict(tw, pre_existing_output=False)
         self.output_path = os.path.join(w.work, self.output_name) if self.output_name else None
         if self.output_path and tw["pre_existing_output"]:
             with open(self.output_path, "w") as f:
@@ -829,7 +834,8 @@ class Runner:
                     self.snap = _snapshot(self.snap_dirs)
                 else:
                     self.check_fs(ex, sig, allowed_output_change=bool((disk or not complete) and kind == "store_valid"))
-                if kind == "store_valid" and complete and not disk and has_output and status is not None and status >= 400:
+                if kind == "store_valid" and complete and not disk and has_output and status is not None and status >= 400 \
+                        and not self.trace["world"].get("output_in_missing_dir"):
                     self.violate("W3", dict(sig, what="valid_store_refused"), "a valid store request to a server with an output file was answered %s" % status)
                 if not has_output and status is not None and status < 400:
                     self.violate("W3", dict(sig, what="store_without_output"), "store answered %s although no output file was fixed" % status)
